@@ -14,7 +14,7 @@ TSnap == /\ Ev("Snap") /\ UNCHANGED vars
          /\ cursor = E.cursor
          /\ {cache[i] : i \in DOMAIN cache} = {E.cache[i] : i \in DOMAIN E.cache}
          /\ \A g \in Procs : pend[g].op = "idle"
-Silent == l' = l /\ \E g \in Procs : LinPick(g) \/ LinGlob(g) \/ LinRedirect(g) \/ LinAccess(g)
+Silent == l' = l /\ \E g \in Procs : LinPick(g) \/ LinGlob(g) \/ LinRedirect(g) \/ LinAccess(g) \/ LinObserve(g)
 TNext == TInv \/ TRet \/ TSnap \/ Silent
 TSpec == TInit /\ [][TNext]_<<vars, l>>
 HW == TLCSet(1, IF TLCGet(1) < l THEN l ELSE TLCGet(1))
